@@ -3,32 +3,7 @@
 import json, os
 ROOT = os.path.dirname(os.path.dirname(os.path.abspath(__file__)))
 props = [json.loads(l) for l in open(os.path.join(ROOT, "properties.jsonl"))]
-CHECKS = {
- "C02": ("model_checking",
-         "TLC proves the coded product/quotient/sum rules of all eight types equal to the first-principles truncated Taylor algebra as polynomial identities (all operand values, all presence patterns), then enumerates calculator behaviours over exact rationals that the harness replays bit-exactly through the real crate on f32/f64, static/dynamic types",
-         "trusted: TLC; layer B (my transcription of the code) is checked against layer A by TLC and against the code by replay; exact-mode replay covers operands with small dyadic parts",
-         "TLA+ refinement check (TLC, Laurent-polynomial ring) + replay of TLC-generated behaviours into the implementation"),
- "C06": ("model_checking",
-         "TLC checks on every transition of the calculator that the real part of the result is the plain-rational operation on the operands' real parts and that predicates/comparisons depend on real parts only; every behaviour is replayed twice on the real crate with identical real parts and different derivative parts (bitwise equal real parts, equal observations) and against the model",
-         "signed zeros are outside the rational model (handled by dedicated cases); comparisons exist on the four field types only",
-         "TLA+ action property ReTransparent (TLC) + two-run replay of TLC-generated behaviours"),
- "C07": ("model_checking",
-         "TLC checks symbolically (all 2^k presence patterns, all operand values) and on every calculator transition that zero-filling absent parts leaves every result unchanged; every behaviour is replayed with absent parts and again with explicit zeros on the static and dynamic vector types",
-         "bounded: dimensions <= 3 in the quick tier; operand values small dyadics",
-         "TLA+ refinement mapping absent->zeros (TLC) + zero-fill replay of TLC-generated behaviours"),
- "C08": ("model_checking",
-         "TLC checks FormsAgree on every transition (each owned/borrowed/assign/scalar/Inv/Sum/Product/mul_add/constant form equals the canonical dual-dual operation with the scalar lifted to a constant); the harness replays each behaviour through exactly the syntactic form named in the event and compares bit-exactly",
-         "the list of forms is the one modelled in Calc.tla/Machine.tla; FromPrimitive/FloatConst entry points are checked by the harness table",
-         "TLA+ action property FormsAgree (TLC) + per-form replay of TLC-generated behaviours"),
- "C16": ("model_checking",
-         "TLC enumerates scalar dual types and nestings to depth 3 with distinct part values, checks the model-level round trip and field-name invariants and emits the expected JSON tree; the harness (feature serde) compares serde_json's tree with it (names, nesting, nothing else), round-trips bitwise through the text and deserialises the model tree with permuted key order, on f64 and f32",
-         "serde_json is trusted as the data format; values are finite and exactly representable",
-         "TLA+ tree model (TLC) + conformance of the real serde output against TLC-generated cases"),
- "C18": ("model_checking",
-         "TLC enumerates types x presence patterns x values and emits the token sequence Display must produce (transcribed from the fmt impls and Derivative::fmt, invariant: every stored scalar of a present part is printed exactly once); the harness formats the real value on every concrete configuration (f32/f64, static/dynamic, nested), tokenises the string and requires identical tokens with every number parsing back to exactly the stored value",
-         "dimensions <= 3; nalgebra's matrix box layout is tokenised, not modelled character by character",
-         "TLA+ token-grammar model (TLC) + conformance of the real Display output against TLC-generated cases"),
-}
+CHECKS = {k: (v["level"], v["text"], v["note"], v["technique"]) for k, v in json.load(open(os.path.join(ROOT, "tools", "checks.json"))).items()}
 man = {
  "version": 1,
  "setup_cmd": "./vp setup",
